@@ -544,3 +544,21 @@ def value_sites(body, op, steps=(), depth=0, seen=None):
         else:
             out.append((bb, d))
     return out
+
+
+def only_err_returns(body, start, avoid=()):
+    """every return reachable on a feasible path from block `start` returns Err (decided on the tracked shape of
+    the returned value: aggregates, `?`, map_err / ok_or ... keep it known)"""
+    from . import cfg
+    if not body.local_ty(0).startswith(("std::result::Result<", "core::result::Result<")):
+        return False
+    rs = cfg.return_shapes(body, start, avoid)
+    return bool(rs) and all(sh is not None and sh[0] == 1 for (_bb, sh) in rs)
+
+
+def only_none_returns(body, start, avoid=()):
+    from . import cfg
+    if not body.local_ty(0).startswith(("std::option::Option<", "core::option::Option<")):
+        return False
+    rs = cfg.return_shapes(body, start, avoid)
+    return bool(rs) and all(sh is not None and sh[0] == 0 for (_bb, sh) in rs)
